@@ -50,7 +50,7 @@ def bounds(tier):
             "supply": len(SUPPLY), "nb_points": NBP + [9], "alphas": ALPHAS + [0.9], "methods": METHODS,
             "menu_sequences": 27, "builtin_nb_samples": 2,
             "big_sizes": [[5, 1], [1, 6], [10, 1], [1, 13], [14, 1], [2, 15], [7, 2], [22, 1]],
-            "light_sizes": list(range(7, 201)), "long_sizes": [1100, 2100], "scan_sizes": [2040, 5100]}
+            "light_sizes": list(range(7, 121)), "long_sizes": [1100, 2100], "scan_sizes": [2040, 3700]}
 
 
 def work(tier, seed):
@@ -64,7 +64,14 @@ def work(tier, seed):
                 k += 1
     # larger classes (the rounding of (n-1)/n in the rule-of-three trigger depends on n): tie-free order types only
     for P, Q in b["big_sizes"]:
-        for bl in ot.order_types(P, Q, P, Q, tie_free=True):
+        # all tie-free interleavings of P positives and Q negatives, generated directly (choose the places of the
+        # smaller class; enumerating every order type up to that size and filtering would need gigabytes)
+        def _interleavings(P_, Q_):
+            for places in itertools.combinations(range(P_ + Q_), Q_):
+                ps = set(places)
+                yield tuple((0, 1) if i in ps else (1, 0) for i in range(P_ + Q_))
+
+        for bl in _interleavings(P, Q):
             items.append({"blocks": [list(x) for x in bl], "easy": [0, 0], "rot": k})
             k += 1
     # much larger classes, light mode (identity sampler, all scores as support): the float comparisons in the
